@@ -138,7 +138,7 @@ class Emitter:
                 out.append("%svf_M(%s, yyleng); %s;" % (indent, C, self.call0("yymore")))
                 self.uses.add("yymore")
             elif k == "less":
-                mode = {"abs": 0, "back": 1, "hash": 2}[op[1]]
+                mode = {"abs": 0, "back": 1, "hash": 2, "abs0": 3}[op[1]]
                 out.append("%s{ int vf_n = vf_less_n(%s, %d, %d, %du, yyleng); yyless(vf_n); "
                            "vf_L(%s, vf_n, yytext, yyleng); }" % (indent, C, mode, op[2], op[3], C))
             elif k == "unput":
